@@ -50,7 +50,7 @@ func sameRow(p *core.Program, a, b ssa.Value) bool {
 					if x.instr == y.instr {
 						return true
 					}
-				case srcFresh, srcParam, srcCallback:
+				case srcFresh, srcParam, srcCallback, srcLoopCarried:
 					if x.val == y.val {
 						return true
 					}
